@@ -1,6 +1,7 @@
 package main
 
 import (
+	"os"
 	"fmt"
 	"math/rand"
 	"sync"
@@ -12,11 +13,11 @@ import (
 func init() { register("C20", "exploration", runC20) }
 
 func runC20(c *Check, rng *rand.Rand) {
-	c.Rule = "topologies with r = 2,3,4 healthy replicas per master, replica reads on; N = 300*r read commands (many commands and slots of one master) interleaved with writes; every healthy replica must have served at least one read (false-alarm probability under a uniform pick < 1e-30), no write may reach a replica; repeated with one replica refusing connections; distinct = (topology, master, scenario)"
+	c.Rule = "topologies with r = 2,3,5 (thorough: up to 8) healthy replicas per master, replica reads on; N = 300*r read commands (many commands and slots of one master) interleaved with writes; every healthy replica must have served at least one read (false-alarm probability under a uniform pick < 1e-30), no write may reach a replica; repeated with one replica refusing connections; a replica (one the proxy was configured with as a seed, and one it discovered) that was unreachable while reads flowed and is healthy again must serve reads again within 30 s; distinct = (topology, master, scenario)"
 	c.Assumptions = []string{"nothing is asserted about whether or when an unhealthy (banned) replica is retried; only the healthy ones are counted"}
-	rs := []int{2, 3}
+	rs := []int{2, 3, 5}
 	if c.Thorough() {
-		rs = []int{2, 3, 4, 5}
+		rs = []int{2, 3, 4, 5, 6, 8}
 	}
 	for _, r := range rs {
 		masters := 3
@@ -140,6 +141,7 @@ func runC20(c *Check, rng *rand.Rand) {
 		env.Close()
 	}
 	c20special(c, rng)
+	c20recover(c, rng)
 	c.MinEvals = 6
 }
 
@@ -278,4 +280,99 @@ func addrOf(n *Node) string {
 		return ""
 	}
 	return n.Addr
+}
+
+// c20recover: a replica becomes unreachable while reads flow (so that the proxy notices),
+// traffic pauses, the replica comes back. Bounded restatement of "every healthy replica
+// serves some reads": at the latest 30 s after it is reachable again it must receive
+// reads again (the unchanged proxy probes a node every 5 s). Done for a replica the
+// proxy was configured with (redis.servers lists replica addresses here) and for one it
+// only learned from the topology.
+func c20recover(c *Check, rng *rand.Rand) {
+	masters, r := 2, 3
+	env, err := NewEnv(EnvOpt{Masters: masters, Replicas: r, Topo: func(cl *Cluster) *Topo {
+		return EvenTopo(cl, masters, r)
+	}, Cfg: ProxyCfg{Servers: []string{"replica-seeds"}, LogLevel: os.Getenv("C20_LOGLEVEL")}, SeedReplicas: true})
+	must(err, "start env")
+	defer env.Close()
+	env.Cl.SetHandler(func(b *BReq) Action { return Action{Reply: ValueReply(b)} })
+	seeds := map[string]bool{}
+	for _, a := range env.P.Cfg.Servers {
+		seeds[a] = true
+	}
+	reads := func(m *TNode, n int) map[*Node]int {
+		env.Cl.ResetLog()
+		cl, err := env.Dial()
+		must(err, "dial")
+		defer cl.Close()
+		for i := 0; i < n; i++ {
+			slot := m.Slots[0][0] + rng.Intn(m.Slots[0][1]-m.Slots[0][0]+1)
+			cl.Send(Req("GET", Key(slot, newToken("rc"))))
+			if i%20 == 19 {
+				cl.WaitReplies(i+1, 5*time.Second)
+			}
+		}
+		cl.WaitReplies(n, 10*time.Second)
+		per := map[*Node]int{}
+		for _, b := range env.Cl.Log() {
+			if CmdTable[b.Cmd].Role == RoleRead {
+				per[b.Node]++
+			}
+		}
+		return per
+	}
+	for mi := 0; mi < masters && env.P.Alive(); mi++ {
+		m := env.T.Nodes[mi]
+		reps := env.T.Replicas(m.ID)
+		victim := reps[rng.Intn(len(reps))]
+		kind := "discovered-replica"
+		if seeds[victim.Addr] {
+			kind = "configured-seed-replica"
+		}
+		if before := reads(m, 200); before[victim.Node] == 0 {
+			c.Count("recover_victim_unused_before(read-spread subject)", 1)
+			continue
+		}
+		victim.Node.SetDown(true)
+		// the proxy meets the dead replica: reads one at a time until one of them fails
+		// (the dead replica was picked for the request and for its retry), then silence -
+		// the proxy's last experience with the replica is a failure
+		failed := false
+		cl, err := env.Dial()
+		must(err, "dial")
+		for i := 0; i < 600 && !failed; i++ {
+			slot := m.Slots[0][0] + rng.Intn(m.Slots[0][1]-m.Slots[0][0]+1)
+			cl.Send(Req("GET", Key(slot, newToken("rc"))))
+			if !cl.WaitReplies(i+1, 5*time.Second) {
+				break
+			}
+			failed = cl.Snapshot().Replies[i].Val.Kind == '-'
+		}
+		cl.Close()
+		if !failed {
+			c.Count("recover_no_read_failed_while_down", 1)
+		}
+		time.Sleep(6 * time.Second)
+		victim.Node.SetDown(false)
+		time.Sleep(12 * time.Second)
+		got := 0
+		total := 0
+		for round := 0; round < 10 && got == 0; round++ {
+			per := reads(m, 300)
+			got += per[victim.Node]
+			total += 300
+			if got == 0 {
+				time.Sleep(2 * time.Second)
+			}
+		}
+		c.Eval(1)
+		c.Distinct("recover/" + kind)
+		if got == 0 {
+			c.Violate(Violation{Class: "healthy-replica-never-used", Shape: "recovered/" + kind,
+				Detail:  fmt.Sprintf("replica %s was unreachable for 6 s while reads flowed; reachable again for more than 30 s it received none of %d reads for its master's slots", victim.Addr, total),
+				Witness: map[string]interface{}{"replica": victim.Addr, "configured_servers": env.P.Cfg.Servers, "master": m.Addr}})
+		} else {
+			c.Count("recovered_replicas_serving_again", 1)
+		}
+	}
 }
